@@ -61,7 +61,7 @@ PROPS = {
         "shards": {"quick": 1, "thorough": 8},
     },
     "C17": {
-        "modules": ["Capnp.Props.C17"],
+        "modules": ["Capnp.Props.C17", "Capnp.Props.C17C"],
         "gen": False,
         "rule": "pairs of spec-valid messages: the same value tree in two random layouts; the tree vs its re-encoding in another schema "
                 "version (structs padded/truncated by zero words and null pointers, primitive/pointer/void lists upgraded to struct lists), "
@@ -126,7 +126,7 @@ PROPS = {
         "no_panic": ["build "],
     },
     "C16": {
-        "modules": ["Capnp.Props.C05"],
+        "modules": ["Capnp.Props.C05", "Capnp.Props.C16"],
         "gen": True,
         "rule": "a tree built in a source message (any arena) is assigned into a destination message (any arena) by SetRoot, Struct.SetPtr, "
                 "PointerList.Set, List.SetStruct or Struct.CopyFrom into a struct of 0..3 data words and 0..3 pointers that holds old content, "
